@@ -79,10 +79,9 @@ func NewWhitespaceError(msg string) error {
 	return whitespaceError(msg)
 }
 
-var emptyWhitespaceError whitespaceError
-
 func IsWhitespaceError(err error) bool {
-	return errors.As(err, &emptyWhitespaceError)
+	var target whitespaceError
+	return errors.As(err, &target)
 }
 
 type NotFoundError string
@@ -91,8 +90,7 @@ func (n NotFoundError) Error() string {
 	return fmt.Sprintf("was expecting %s", string(n))
 }
 
-var emptyNotFoundError NotFoundError
-
 func IsNotFoundError(err error) bool {
-	return errors.As(err, &emptyNotFoundError)
+	var target NotFoundError
+	return errors.As(err, &target)
 }
